@@ -190,6 +190,9 @@ def escapeChar (c : Char) : Str :=
 
 def replaceSpecialChars (s : Str) : Str := s.flatMap escapeChar
 
+/-- U+0000, U+0001 and U+0002 (placeholders of the span and macro passes) become blanks. -/
+def blankReserved (s : Str) : Str := s.map fun c => if c.toNat ≤ 2 then ' ' else c
+
 /-! ## Reader and Writer (`rimu.io`) -/
 
 /-- The reader never looks back, so it is the list of lines from the cursor on plus the number of
